@@ -23,7 +23,7 @@ const c01Slack = 6 * time.Second
 func latestDelivered(m *Model, r *MRoute, integ int, gl map[string]string, t Dur) *Notif {
 	var best *Notif
 	for _, n := range m.H.Notifs {
-		if n.Inst != m.Name || !n.OK() || n.Receiver != r.Receiver || n.Integ != integ || n.Done > t {
+		if !m.mine(n) || !n.OK() || n.Receiver != r.Receiver || n.Integ != integ || n.Done > t {
 			continue
 		}
 		if !sameLabels(n.GroupLabels, gl) || !m.RoutesOf(n)[r] {
@@ -68,9 +68,39 @@ func checkO1(prop string, m *Model, v *Verdict, extraSlack Dur) {
 						continue // truncation may legitimately omit the alert (C20 checks the count)
 					}
 					// candidate instants: u+B, the end, and just after every delivery in between
+					if m.Union {
+						// cluster: instances may hold different alerts, so "the latest notification"
+						// is not a meaningful view; what is owed is that somebody reports the alert
+						// as firing within the bound of its becoming eligible
+						t := u + B
+						if m.FaultIn(r.Receiver, i, u-c01Slack, t) || m.Disturbed(u-c01Slack-m.P.Opts.DispatchStartDelay, t) {
+							continue
+						}
+						v.Ob("O1-eligible-alert-notified-by-some-instance")
+						// Told "fires" since the alert became eligible, or within the last
+						// repeat_interval before that and not told "resolved" since (an instance
+						// that restarted and got the log entry back rightly stays silent).
+						var lastFiring, lastResolved Dur = -1, -1
+						for _, n := range h.Notifs {
+							if !n.OK() || n.Receiver != r.Receiver || n.Integ != i || !sameLabels(n.GroupLabels, gl) || n.Done > t {
+								continue
+							}
+							if n.Firing()[lk] && n.Done > lastFiring {
+								lastFiring = n.Done
+							}
+							if n.Resolved()[lk] && n.Done > lastResolved {
+								lastResolved = n.Done
+							}
+						}
+						found := lastFiring >= u-c01Slack || (lastFiring >= 0 && lastFiring >= u-r.RepeatInterval && lastResolved < lastFiring)
+						if !found {
+							v.Fail(prop, prop+"/eligible-alert-notified-by-no-instance", t, "alert %s held by %s and eligible on route %s (receiver %s/%d, group %s) throughout [%v,%v] was not reported as firing by any instance by %v (bound %v)", lk, m.Name, r.Path, r.Receiver, i, labelsKey(gl), sp.From, sp.To, t, B)
+						}
+						continue
+					}
 					cands := []Dur{u + B, w}
 					for _, n := range h.Notifs {
-						if n.Inst == m.Name && n.Receiver == r.Receiver && n.Integ == i && n.Done > u+B && n.Done < w {
+						if m.mine(n) && n.Receiver == r.Receiver && n.Integ == i && n.Done > u+B && n.Done < w {
 							cands = append(cands, n.Done+time.Millisecond)
 						}
 					}
